@@ -92,5 +92,49 @@ func TestGovcBoundedC06Groupings(t *testing.T) {
 			}
 		}
 	}
+	// fixed cases. (1) two uses of a grouping with five extensions, each use with one of its own:
+	// the entries of the uses statements (and the trees kept by StoreUses) do not share the array
+	// behind their extension lists. (2) a prefix means what the imports of the module it is written
+	// in say: "uses x:g" is not resolved through the import of an included submodule.
+	{
+		evals++
+		ms := NewModules()
+		ms.ParseOptions.StoreUses = true
+		src := `module p { namespace "urn:p"; prefix "p"; extension e { argument a; }
+  grouping g { p:e "g1"; p:e "g2"; p:e "g3"; p:e "g4"; p:e "g5"; leaf l { type string; } }
+  container one { uses g { p:e "u1"; } } container two { uses g { p:e "u2"; } } }`
+		if err := ms.Parse(src, "p.yang"); err != nil {
+			fmt.Printf("GOVC-FAIL name=c06-grouping-expansion fixed case does not parse: %v\n", err)
+		} else if errs := ms.Process(); len(errs) > 0 {
+			fmt.Printf("GOVC-FAIL name=c06-grouping-expansion fixed case: %v\n", errs)
+		} else {
+			mod := ToEntry(ms.Modules["p"])
+			for i, c := range []string{"one", "two"} {
+				want := fmt.Sprintf("g1 g2 g3 g4 g5 u%d", i+1)
+				for what, e := range map[string]*Entry{"Uses[0].Grouping": mod.Dir[c].Uses[0].Grouping, "ToEntry(uses)": ToEntry(ms.Modules["p"].Container[i].Uses[0])} {
+					var got []string
+					for _, x := range e.Exts {
+						got = append(got, x.Argument)
+					}
+					if strings.Join(got, " ") != want {
+						fmt.Printf("GOVC-FAIL name=c06-grouping-expansion /p/%s: %s has the extensions %v, want [%s]\n", c, what, got, want)
+					}
+				}
+			}
+		}
+		evals++
+		ms = NewModules()
+		for n, s := range map[string]string{
+			"m.yang": `module m { namespace "urn:m"; prefix m; include s; container c { uses x:g; } }`,
+			"s.yang": `submodule s { belongs-to m { prefix m; } import q { prefix x; } }`,
+			"q.yang": `module q { namespace "urn:q"; prefix q; grouping g { leaf from-q { type string; } } }`} {
+			if err := ms.Parse(s, n); err != nil {
+				fmt.Printf("GOVC-FAIL name=c06-grouping-errors fixed case does not parse: %v\n", err)
+			}
+		}
+		if errs := ms.Process(); len(errs) == 0 {
+			fmt.Printf("GOVC-FAIL name=c06-grouping-errors module m imports nothing under x, yet \"uses x:g\" is resolved through the import of its submodule\n")
+		}
+	}
 	fmt.Printf("GOVC-BOUNDED name=c06-expansion-vs-model bound=%d_random_schemas_(<=3_modules,_submodule,_<=8_groupings_with_shadowing_and_nesting,_seed_%d;_%d_invalid)_x_2_load_orders evaluations=%d distinct=%d\n", schemas, seed, invalid, evals, nodes)
 }
